@@ -43,6 +43,12 @@ ANCHORS = {
     'isi_lengths', 'default_thresh', 'default_thresh_', 'reconcile_spike_trains', 'reconcile_spike_trains_bi',
     'get_min_dist_cython', 'isi_avrg_cython', 'get_tau_cython', 'get_tau_python',
 }
+# the library's own private functions: units of analysis of the wrapper rules, never dissolved into their callers
+# (calls of them may still move with the expression they are part of)
+UNITS = {
+    '_generic_profile_multi', '_generic_distance_multi', '_generic_distance_matrix', '_spike_sync_values',
+    '_spike_train_order_impl', '_spike_directionality_values_impl', '_optimal_spike_train_sorting_from_matrix',
+}
 
 PURE_CALLS = {'len', 'max', 'min', 'abs', 'float', 'int', 'fmax', 'fmin', 'fabs', 'sqrt', 'isinstance', 'range',
               'bool', 'tuple', 'slice'}
@@ -143,9 +149,11 @@ def compute_mutators(trees: List[ast.Module]):
                 collect(st.body, False)
             elif isinstance(st, ast.ClassDef):
                 collect(st.body, True)
+                classes.append(st)
             elif isinstance(st, (ast.If, ast.Try, ast.For, ast.While, ast.With)):
                 for b in _blocks_of(st):
                     collect(b, in_class)
+    classes: List[ast.ClassDef] = []
     for t in trees:
         collect(t.body, False)
     KNOWN_FUNCS.clear()
@@ -194,6 +202,57 @@ def compute_mutators(trees: List[ast.Module]):
             if mut - MUTATORS.get(name, set()):
                 MUTATORS.setdefault(name, set()).update(mut)
                 changed = True
+    # `C(args)` runs C.__init__(self, args): an argument is modified if __init__ modifies that parameter, and it
+    # counts as modified as well when the new object keeps a reference to it (`self.a = p`: a later store through
+    # the object would reach the caller's value)
+    by_name: Dict[str, List[ast.ClassDef]] = {}
+    for c in classes:
+        by_name.setdefault(c.name, []).append(c)
+    for cname, cs in by_name.items():
+        if cname in KNOWN_FUNCS:
+            continue                            # a function of the same name exists: stay with the unknown-callee rule
+        inits = [next((st for st in c.body if isinstance(st, ast.FunctionDef) and st.name == '__init__'), None) for c in cs]
+        if any(i is None for i in inits) or any(c.bases and not (len(c.bases) == 1 and isinstance(c.bases[0], ast.Name)
+                                                                 and c.bases[0].id == 'object') for c in cs):
+            continue                            # inherited constructor: not summarised
+        mut: Set[int] = set()
+        for init in inits:
+            params = [a.arg for a in init.args.posonlyargs + init.args.args]
+            if init.args.vararg or init.args.kwarg:
+                mut |= set(range(len(params) + 8))
+            mut |= {i - 1 for i in MUTATORS.get('__init__', set()) if i >= 1}
+            for n in ast.walk(init):
+                if isinstance(n, ast.Assign):
+                    if any(isinstance(t, (ast.Attribute, ast.Subscript)) for t in n.targets):
+                        for v in _escaping_names(n.value):
+                            if v in params:
+                                mut.add(params.index(v) - 1)
+        KNOWN_FUNCS.add(cname)
+        if mut:
+            MUTATORS[cname] = {i for i in mut if i >= 0}
+
+
+COPYING_CALLS = {'array', 'float', 'int', 'len', 'sort', 'sorted', 'copy', 'zeros', 'ones', 'empty', 'str', 'bool'}
+
+
+def _escaping_names(e: ast.AST) -> Set[str]:
+    """Names whose object (not a copy or a number computed from it) may be the value of expression `e`."""
+    if isinstance(e, ast.Name):
+        return {e.id}
+    if isinstance(e, ast.Call):
+        f = e.func.attr if isinstance(e.func, ast.Attribute) else (e.func.id if isinstance(e.func, ast.Name) else '')
+        if f in COPYING_CALLS:
+            return set()
+        out: Set[str] = set()
+        for a in list(e.args) + [k.value for k in e.keywords]:
+            out |= _escaping_names(a)
+        return out
+    if isinstance(e, (ast.BinOp, ast.UnaryOp, ast.Compare, ast.BoolOp, ast.Constant)):
+        return set()                            # arithmetic makes a new value
+    out = set()
+    for c in ast.iter_child_nodes(e):
+        out |= _escaping_names(c)
+    return out
 
 
 _CACHE: Dict[tuple, tuple] = {}
@@ -242,6 +301,16 @@ def _mutated_names(node: ast.AST, calls: bool = True) -> Set[str]:
             _target_names(n.target, out)
         elif calls and isinstance(n, ast.Call):
             _call_kills(n, out)
+    return out
+
+
+def _comp_targets(node: ast.AST) -> Set[str]:
+    """Names bound by comprehensions inside `node` (their own scope: not locals of the function, but not free names
+    of it either)."""
+    out: Set[str] = set()
+    for n in ast.walk(node):
+        if isinstance(n, ast.comprehension):
+            _target_names(n.target, out)
     return out
 
 
@@ -357,12 +426,14 @@ def _expand_ifexp(block: List[ast.stmt]) -> List[ast.stmt]:
             out.append(_fix(ast.If(test=ie.test, body=_expand_ifexp([a]), orelse=_expand_ifexp([b])), st))
         elif isinstance(st, ast.Assign) and len(st.targets) == 1 and isinstance(st.targets[0], ast.Tuple) \
                 and isinstance(st.value, ast.Tuple) and len(st.value.elts) == len(st.targets[0].elts) \
-                and all(isinstance(t, ast.Name) for t in st.targets[0].elts):
-            tg = [t.id for t in st.targets[0].elts]
-            # independent unless a later value reads an earlier target
+                and all(isinstance(t, (ast.Name, ast.Subscript, ast.Attribute)) and _base_name(t) for t in st.targets[0].elts) \
+                and all(_is_pure_expr(t) for t in st.targets[0].elts):
+            tg = [_base_name(t) for t in st.targets[0].elts]
+            # independent unless a later value (or a later target's index) reads an earlier target
             ok = True
             for i, v in enumerate(st.value.elts):
-                if _names_loaded(v) & set(tg[:i]):
+                reads = _names_loaded(v) | (_names_loaded(st.targets[0].elts[i]) - ({tg[i]} if isinstance(st.targets[0].elts[i], ast.Name) else set()))
+                if reads & set(tg[:i]):
                     ok = False
             if ok and len(set(tg)) == len(tg):
                 for t, v in zip(st.targets[0].elts, st.value.elts):
@@ -1275,7 +1346,7 @@ def _fn_params(fn: ast.FunctionDef) -> Set[str]:
     return params
 
 
-def _inline_temps(fn: ast.FunctionDef) -> bool:
+def _inline_temps(fn: ast.FunctionDef, keep_generated_copies: bool = False) -> bool:
     """One round of N6 over the function; returns whether something changed."""
     params = _fn_params(fn)
     excluded: Set[str] = set(params)
@@ -1320,6 +1391,10 @@ def _inline_temps(fn: ast.FunctionDef) -> bool:
             if isinstance(s, ast.Assign) and len(s.targets) == 1 and isinstance(s.targets[0], ast.Name) \
                     and s.targets[0].id not in excluded and not (s.targets[0].id.startswith('N_') and '__inl' not in s.targets[0].id):
                 v = s.targets[0].id
+                if keep_generated_copies and isinstance(s.value, ast.Name) and ('__inl' in s.value.id or s.value.id.startswith('__r')) \
+                        and not ('__inl' in v or v.startswith('__r')):
+                    k += 1
+                    continue            # `name = <generated>`: left to copy coalescing, which keeps the caller's name
                 inl = _DefInliner(v, s.value)
                 good = inl.check(block, k, cont) and (v not in modified or inl.total == 1)
                 if not good and inl.pure and _sink_killers(block, k, v, inl):
@@ -1872,6 +1947,47 @@ def _while_to_for(fn: ast.FunctionDef) -> bool:
 
 
 # ----------------------------------------------------------------------------------------------
+# N17: `for T in (E for x in ITER if c): BODY`  ->  `for x in ITER: if c: T = E; BODY`
+# ----------------------------------------------------------------------------------------------
+
+def _unroll_comprehension_loops(fn: ast.FunctionDef) -> bool:
+    changed = False
+    fn_names = {n.id for n in ast.walk(fn) if isinstance(n, ast.Name)}
+
+    def visit(block):
+        nonlocal changed
+        for k, st in enumerate(block):
+            if isinstance(st, (ast.FunctionDef, ast.ClassDef)):
+                continue
+            for b in _blocks_of(st):
+                visit(b)
+            if isinstance(st, ast.For) and isinstance(st.iter, (ast.GeneratorExp, ast.ListComp)) and len(st.iter.generators) == 1 \
+                    and not st.orelse and not st.iter.generators[0].is_async:
+                g = st.iter.generators[0]
+                tnames = {n.id for n in ast.walk(g.target) if isinstance(n, ast.Name)}
+                # the comprehension's own variables become loop variables of the function: they must be new names
+                # there, and the loop body must not `continue` past the element assignment (it comes first: fine)
+                others = {n.id for n in ast.walk(fn) if isinstance(n, ast.Name)} - \
+                    {n.id for n in ast.walk(st.iter) if isinstance(n, ast.Name)}
+                if tnames & others:
+                    continue
+                first = _fix(ast.Assign(targets=[st.target], value=st.iter.elt), st)
+                for n in ast.walk(first.targets[0]):
+                    if isinstance(n, ast.Name):
+                        n.ctx = ast.Store()
+                body = [first] + st.body
+                for c in reversed(g.ifs):
+                    body = [_fix(ast.If(test=c, body=body, orelse=[]), st)]
+                new = _fix(ast.For(target=g.target, iter=g.iter, body=body, orelse=[]), st)
+                block[k] = new
+                changed = True
+    visit(fn.body)
+    if changed:
+        _invalidate()
+    return changed
+
+
+# ----------------------------------------------------------------------------------------------
 # N14: lengths of arrays that are bound once get one name each
 # ----------------------------------------------------------------------------------------------
 
@@ -2303,7 +2419,8 @@ class _HelperInliner:
         if body and isinstance(body[0], ast.Expr) and isinstance(body[0].value, ast.Constant) \
                 and isinstance(body[0].value.value, str):
             body = body[1:]
-        locals_ = set(params) | mutated_names(ast.Module(body=body, type_ignores=[]), calls=False)
+        locals_ = set(params) | mutated_names(ast.Module(body=body, type_ignores=[]), calls=False) \
+            | _comp_targets(ast.Module(body=body, type_ignores=[]))
         for n in ast.walk(ast.Module(body=body, type_ignores=[])):
             if isinstance(n, (ast.Global, ast.Nonlocal, ast.Yield, ast.YieldFrom)):
                 return None
@@ -2386,7 +2503,7 @@ class _HelperInliner:
 
 
 def _helper_ok(h: ast.FunctionDef, name: str, limit: int = MAX_HELPER_STMTS) -> bool:
-    if name in ANCHORS or h.decorator_list:
+    if name in ANCHORS or name in UNITS or h.decorator_list:
         return False
     n_stmts = sum(1 for n in ast.walk(h) if isinstance(n, ast.stmt)) - 1
     if n_stmts > limit:
@@ -2412,8 +2529,9 @@ def _module_helpers(tree: ast.Module, backend: bool = False) -> Dict[str, ast.Fu
         if isinstance(st, ast.FunctionDef) and not st.name.startswith('__') \
                 and (st.name.startswith('_') or (backend and len([x for x in ast.walk(st) if isinstance(x, ast.stmt)]) <= 9)) \
                 and _helper_ok(st, st.name):
-            # module-level helper: loop-free, and it must not be a unit of analysis (see ANCHORS)
-            if any(isinstance(n, (ast.For, ast.While)) for n in ast.walk(st)):
+            # module-level helper: it must not be a unit of analysis (see ANCHORS); un-prefixed helpers of the kernel
+            # modules are loop-free (the kernels themselves are the functions with loops)
+            if not st.name.startswith('_') and any(isinstance(n, (ast.For, ast.While)) for n in ast.walk(st)):
                 continue
             out[st.name] = st
     return out
@@ -2494,7 +2612,7 @@ def normalize_function(fn: ast.FunctionDef, module_helpers: Dict[str, ast.Functi
             h = outer_nested[f.id]
             if not _helper_ok(h, f.id):
                 return None
-            h_locals = _fn_params(h) | mutated_names(h, calls=False)
+            h_locals = _fn_params(h) | mutated_names(h, calls=False) | _comp_targets(h)
             free = {n.id for n in ast.walk(h) if isinstance(n, ast.Name)} - h_locals
             if free & fn_locals:
                 return None          # a closure variable of the helper would be captured by a local of this function
@@ -2502,7 +2620,7 @@ def normalize_function(fn: ast.FunctionDef, module_helpers: Dict[str, ast.Functi
         if f.id in module_helpers and f.id not in fn_locals and module_helpers[f.id] is not fn:
             h = module_helpers[f.id]
             # the helper's free names must not be captured by the caller's locals
-            h_locals = {a.arg for a in h.args.args} | mutated_names(h, calls=False)
+            h_locals = {a.arg for a in h.args.args} | mutated_names(h, calls=False) | _comp_targets(h)
             free = {n.id for n in ast.walk(h) if isinstance(n, ast.Name)} - h_locals
             if free & fn_locals:
                 return None
@@ -2552,11 +2670,14 @@ def normalize_function(fn: ast.FunctionDef, module_helpers: Dict[str, ast.Functi
         fn.body = _branch_motion(fn.body)
         _invalidate()
         _while_to_for(fn)
+        _unroll_comprehension_loops(fn)
         _invalidate()
         for _ in range(8):
-            ch = _inline_temps(fn)
+            ch = _inline_temps(fn, True)
             while _coalesce_copies(fn) or _coalesce_generated(fn):
                 ch = True
+            if not ch:
+                ch = _inline_temps(fn, False)   # copies of generated names that coalescing could not remove
             ch = _forward_tuple_temps(fn) or ch
             _invalidate()
             if not ch:
